@@ -720,7 +720,7 @@ class ImageBatch(DataTensor):
         grids = tuple(grid.pyramid(levels, dims=dims, min_size=min_size)[0] for grid in grids)
         assert all(grid.size() == grids[0].size() for grid in grids)
         # Resize image to match finest resolution grid
-        if torch.allclose(grids[0].cube_extent(), self._grid[0].cube_extent()):
+        if torch.allclose(grids[0].cube_extent(), source_grids[0].cube_extent()):
             size = grids[0].size()
             data = U.grid_resize(self, size, mode=mode, align_corners=align_corners)
         else:
